@@ -64,6 +64,20 @@ THEOREMS = [
     (M, "C13I.ini_config_shape", "EnumerateApp(inipath, l10nbase).asConfig(): one ProjectConfig without path/root/children/excludes/rules, environ = {l10n_base: abspath(l10nbase)}, locales from the all-locales file, path rules = one per (base, dir) of directories(), in order"),
     (M, "C13I.dirs_entry_two_rules", "every `dirs` word m of every loaded l10n.ini n (top or included, any depth) yields the rule l10n = {l10n_base}/{locale}/m/**, reference = n.base/m/locales/en-US/**, module = m (android-dtd test exactly for mobile/android/base), and every path rule is of that form"),
     (M, "C13I.top_dirs_loaded", "the top l10n.ini is a node of the include tree with base = dirname(inipath)/depth and dirs = the white-space separated words of [compare] dirs"),
+    # ---- C13S: parser sessions — ONE TOMLParser / EnumerateApp object used for a sequence of calls (Paths/TomlSession.lean)
+    (M, "C13S.parser_session_pointwise", "a TOMLParser object has no memory: in a sequence of parse calls on ONE object the n-th result is TOMLParser().parse of the n-th arguments on the files as they are at the n-th call (whatever was parsed before, with whatever variables, whatever was rewritten in between)"),
+    (M, "C13S.parser_object_unchanged", "the TOMLParser object after a parse call is the object before it: nothing is stored on self"),
+    (M, "C13S.session_parse_pointwise", "... also inside a history mixing parse, set_locales(deep=True) on earlier results and ProjectFiles enumerations: call n, if a parse, returns TC.parse of ITS arguments and ITS world"),
+    (M, "C13S.session_files_pointwise", "ProjectFiles built again and again from the configurations the caller holds: call n returns the stateless enumeration + lookups of the graphs held at that moment, independent of the locales, merge bases and order of the earlier constructions"),
+    (M, "C13S.session_reads_leave_state", "building and enumerating a ProjectFiles object changes nothing the caller holds"),
+    (M, "C13S.live_config_stable", "no aliasing between results: a configuration the caller holds is changed by nothing but set_locales on that very object — not by later parses, not by set_locales(deep=True) on another result that includes the same file, not by ProjectFiles objects"),
+    (M, "C13S.parsed_config_kept", "a successful parse hands the caller exactly TC.parse(...) and the object stays that through any later history that does not call set_locales on it"),
+    (M, "C13S.files_of_fresh_parse", "ProjectFiles on the graphs parse returned = TC.projectFiles (parse + construct in one go): the C13T.enumerate_* theorems apply to the enumerations of a session"),
+    (M, "C13S.eapp_session_pointwise", "an EnumerateApp object has no memory: the n-th asConfig() is asConfig of the configuration its constructor loaded on filter.py / all-locales as they are at the n-th call"),
+    (M, "C13S.eapp_reuse_eq_fresh", "a re-used EnumerateApp returns what a fresh EnumerateApp(inipath, l10nbase).asConfig() returns at that moment, as long as the l10n.ini files load to the same configuration"),
+    (M, "C13S.memo_session_pointwise", "which caches on a parser object are safe: calls through a memo table whose key determines the result return, call by call, what the uncached function returns"),
+    (M, "C13S.memo_key_must_determine", "... and only those: two calls with equal keys and different results make the second call return the first call's result"),
+    (M, "C13S.names_key_witness", "the regression in miniature, evaluated through the parser model: an include parsed for l10n_base=/l and then for /other through a cache keyed by (path, NAMES of the command-line variables) comes back with /l the second time"),
     (M, "C13T.include_cycle_witness", "witness: a file that includes itself gives the model's RecursionError (the real parser raises RecursionError on the same file)"),
 ]
 PARTIAL = [
@@ -77,6 +91,7 @@ PARTIAL = [
     "C13T.enumerate_sound / enumerate_sound_matchers pull the origin of an item (project, config reached through includes only, [[paths]] table, locale gates, tests, the two Matcher texts with the config's environ and root) back to the dictionaries; completeness, last-rule-wins and enumeration = lookup are NOT restated over the dictionaries: they apply to TC.projectFiles through C13M.newM_spec (the object is a ProjectFilesM object) with their hypotheses (F14, Rooted, LiteralBound, SubClassOn) stated on the matcher table",
 ]
 TRUSTED = [
+    "C13S: hand-written state machines CLModel/Paths/TomlSession.lean (TParser = a TOMLParser instance, which has no instance attribute; State.live = the ProjectConfig graphs the caller holds, value semantics = no sharing between results; EApp = an EnumerateApp after __init__: loaded config + abspath(l10nbase)) tied to the real objects by c13.session (a recorded history of parse / set_locales(deep=True) / ProjectFiles+list+match calls on ONE real TOMLParser with the configuration files rewritten between the calls, every result and the graphs held at the end compared) and c13.ini.session (one real EnumerateApp, asConfig() per world)",
     "hand-written model CLModel/Paths/ProjectFiles.lean of ProjectFiles.__init__/__iter__/iter_locale/iter_reference/_files/match, ProjectConfig.configs/all_locales, ConfigList.maybe_extend, mozpath.dirname, TOMLParser.processEnv (tied by the `pf.run`/`pf.env` correspondence on real temp directories)",
     "Matcher is abstract: prefix, realpath(prefix), pattern equality class, match relation and sub images are tabulated by the harness from the REAL Matcher objects for every path of the finite universe (files of the tree in os.walk order + ~12 absent paths + the l10n partners of reference paths); matchers are bound to the locale by the harness the way __init__ does (with_env)",
     "os.walk(base)+mozpath.join modelled as: the files whose path starts with base read as a directory (prefixes contain no '//', '.', '..' segments: asserted on every project), nothing for base ''; os.path.isfile = membership in the file list; dict = insertion-ordered association list; sorted = insertion sort on the unique keys",
@@ -97,7 +112,10 @@ LEVEL_TEXT = ("Lean 4 theorems over an executable transliteration of ProjectFile
               "toml.load dictionaries and the command-line env (basepath, env, paths, filters, includes/excludes with ConfigNotFound handling, "
               "locales) and composed with the enumeration into one function of (dictionaries, env, tree): what parse can raise, every config "
               "of the graph is what its file says, command line overrides [env] in every config, all_locales = union over includes, and "
-              "sortedness / exclusion / origin of every item restated over the dictionaries. The model is tied to the Python by differential runs of "
+              "sortedness / exclusion / origin of every item restated over the dictionaries. The long-lived OBJECTS are state machines "
+              "(TParser, the ProjectConfig graphs a caller holds, EApp): the n-th result of a session is the stateless function of the n-th "
+              "arguments and the n-th world, results are never aliased, and a memo table is invisible iff its key determines the result "
+              "(with the names-only key of the round-3 regression as a kernel-checked counterexample). The model is tied to the Python by differential runs of "
               "generated TOML projects in real temp directories (all locales + reference validation mode, every file and ~12 absent paths looked up), "
               "and an oracle that knows the covered set by construction judges the implementation independently of the model")
 LEVEL_NOTE = ("trusted: Lean kernel; hand-written model validated by correspondence; Matcher abstract (tables from the real Matcher; Matcher itself is C11/C12) in the C13.* "
@@ -214,8 +232,8 @@ def finish(spec, rng):
     return spec
 
 
-def gen_project(rng):
-    projects, graph = rng.choice(SHAPES)
+def gen_project(rng, shapes=None, maxfiles=16):
+    projects, graph = rng.choice(shapes or SHAPES)
     excluded = set()
     for c, (_, ex) in graph.items():
         for e in ex:
@@ -279,7 +297,7 @@ def gen_project(rng):
         files.add("/ref/other/u.ftl")
     if rng.random() < 0.2:
         files.add("/l10n/README")
-    files = sorted(files)[:16]
+    files = sorted(files)[:maxfiles]
     lookups = ["/l10n/zz/browser/a.ftl", "/elsewhere/a.ftl"]
     for loc in LOCALES:
         for _ in range(2):
@@ -294,6 +312,126 @@ def gen_project(rng):
     if rng.random() < 0.6:
         decorate(spec, graph, rng)
     return finish(spec, rng)
+
+
+# ---------------------------------------------------------------- parser sessions: a HISTORY is the unit of generation
+FILES["C"] = ["cfg/c.toml", "c.toml"]
+# diamond includes (C reached twice in ONE parse), also with one arm excluded, and two top files sharing a nested include
+SESSION_SHAPES = SHAPES + [
+    (["M"], {"M": (["A", "B"], []), "A": (["C"], []), "B": (["C"], []), "C": ([], [])}),
+    (["M"], {"M": (["A"], ["B"]), "A": (["C"], []), "B": (["C"], []), "C": ([], [])}),
+    (["M", "B"], {"M": (["A"], []), "A": (["C"], []), "B": (["C"], []), "C": ([], [])}),
+    (["M", "A"], {"M": (["A", "B"], []), "A": (["C"], []), "B": (["C"], []), "C": ([], [])}),
+]
+EDITS = [("env-base", 5), ("env-v", 4), ("rewrite", 5), ("missing", 3), ("reshape", 4), ("same", 2), ("tree", 2), ("locales", 2)]
+
+
+def edit_step(spec, rng):
+    """the next step of a session: the previous one after one or two edits of the kind a user makes between two runs —
+    another checkout (l10n_base), another -D value, an included file rewritten / deleted / restored, an include turned into an
+    exclude or another top file, files added to or removed from the tree"""
+    import copy
+    spec = copy.deepcopy(spec)
+    spec.pop("deep_after", None)
+    cfgs = spec["configs"]
+    done = []
+    for _ in range(rng.choice([1, 1, 2])):
+        e = wchoice(rng, EDITS)
+        done.append(e)
+        inner = [c for c in cfgs if c not in spec["projects"]]
+        if e == "env-base" and not spec.get("env_none"):
+            spec["parser_env"]["l10n_base"] = "@R@/l10nB" if spec["parser_env"]["l10n_base"] == "@R@/l10n" else "@R@/l10n"
+        elif e == "env-v" and not spec.get("env_none"):
+            if "v" in spec["parser_env"] and rng.random() < 0.5:
+                del spec["parser_env"]["v"]
+            else:
+                spec["parser_env"]["v"] = "two" if spec["parser_env"].get("v") == "one" else "one"
+        elif e == "rewrite":
+            c = rng.choice(inner or list(cfgs))
+            cf = cfgs[c]
+            cf["rules"] = [gen_rule(rng) for _ in range(rng.randint(1, 3))]
+            if any(r["lroot"] == "l" for r in cf["rules"]):
+                cf["env"]["l"] = "{l10n_base}/{locale}/"
+            if any(r["tail"] == "star_v" for r in cf["rules"]) or rng.random() < 0.3:
+                cf["env"]["v"] = "two" if cf["env"].get("v") == "one" else "one"
+            if rng.random() < 0.4:
+                cf["locales"] = subset(rng, LOCALES) if rng.random() < 0.7 else None
+            cf.pop("filters", None)
+        elif e == "missing" and inner:
+            c = rng.choice(inner)
+            if cfgs[c].get("missing"):
+                del cfgs[c]["missing"]
+            else:
+                cfgs[c]["missing"] = rng.choice(["absent", "absent", "garbled"])
+            spec["ignore"] = rng.random() < 0.7
+        elif e == "reshape":
+            same = [sh for sh in SESSION_SHAPES if set(sh[1]) == set(cfgs)]
+            projects, graph = rng.choice(same)
+            spec["projects"] = list(projects)
+            for c in cfgs:
+                cfgs[c]["includes"], cfgs[c]["excludes"] = list(graph[c][0]), list(graph[c][1])
+        elif e == "tree":
+            fs = list(spec["files"])
+            for _ in range(rng.randint(1, 3)):
+                if fs and rng.random() < 0.5:
+                    fs.remove(rng.choice(fs))
+                else:
+                    f = rng.choice(spec["files"] or ["/l10n/de/a.ftl"])
+                    parts = f.split("/")
+                    parts[-1] = rng.choice(NAMES).split("/")[-1]
+                    fs.append("/".join(parts))
+            spec["files"] = sorted(set(fs))
+        elif e == "locales":
+            c = rng.choice(list(cfgs))
+            cfgs[c]["locales"] = subset(rng, LOCALES) if (c in spec["projects"] or rng.random() < 0.6) else None
+    for c in spec["projects"]:
+        cfgs[c].pop("missing", None)        # a top file that cannot be loaded is the directed family's business
+    spec["edits"] = done
+    spec["lookups"] = sorted(set(spec["lookups"]) - set(spec["files"]))
+    return spec
+
+
+def gen_session(rng):
+    """one TOMLParser object, 2-4 parses: the first project, then edited versions of it (files rewritten in place)"""
+    base = gen_project(rng, shapes=SESSION_SHAPES, maxfiles=14)
+    base.pop("vmerge", None)
+    # a second checkout next to the first: the same kind of files, other ones present
+    other = set()
+    for f in base["files"]:
+        if f.startswith("/l10n/"):
+            if rng.random() < 0.55:
+                other.add("/l10nB/" + f[len("/l10n/"):])
+            if rng.random() < 0.3:
+                parts = f.split("/")
+                parts[-1] = rng.choice(NAMES).split("/")[-1]
+                other.add("/l10nB/" + "/".join(parts)[len("/l10n/"):])
+    base["files"] = sorted(set(base["files"]) | set(sorted(other)[:8]))
+    sess = {"share_env": rng.random() < 0.3}
+    if rng.random() < 0.12:
+        # every call without an `env` argument: the variables come from the files alone
+        base["env_none"] = True
+        base["parser_env"] = {}
+        for cf in base["configs"].values():
+            cf["env"]["l10n_base"] = "@R@/wrong"
+            cf["env"].pop("cfgroot", None)
+            cf["inc_spell"] = {k: ("plain" if v == "var" else v) for k, v in cf.get("inc_spell", {}).items()}
+        base["files"] = sorted(set(base["files"]) | {"/wrong/" + f[len("/l10n/"):] for f in base["files"] if f.startswith("/l10n/") and rng.random() < 0.6})
+    steps = [base]
+    for _ in range(rng.choice([1, 1, 2, 2, 3])):
+        steps.append(edit_step(steps[-1], rng))
+    for st in steps:
+        locs = list(st["locales"]) + [None]
+        rng.shuffle(locs)
+        locs = locs[:rng.choice([2, 3, 3, 4])]
+        if rng.random() < 0.5:
+            locs.append(rng.choice(locs))       # the same locale again, after others
+        st["order"] = locs
+        if rng.random() < 0.25:
+            st["deep_after"] = subset(rng, LOCALES + ["ja"])
+        st["lookups"] = st["lookups"][:8]
+        finish(st, rng)
+    sess["steps"] = steps
+    return sess
 
 
 EXH_TREE = ["/l10n/de/browser/a.ftl", "/l10n/de/browser/bar.ftl", "/l10n/de/browser/file.ftl", "/l10n/de/browser/x/one.ftl",
@@ -462,6 +600,15 @@ def run(ctx):
                 "locales, test annotations), [env] + parser env overrides, trees of up to 16 files on both sides incl. uncovered, "
                 "foreign-locale and decoy-base files; every project is run for each locale (3-4) and in reference validation mode "
                 "(ProjectFiles(None, ...)), with match() looked up for every file and ~10 absent paths. "
+                "PARSER SESSIONS (the unit of generation is a history): ONE TOMLParser object used for 2-4 parses of a project and "
+                "edited versions of it written into the same directory (other l10n_base = another checkout, other/removed -D value, no env "
+                "argument at all, the caller's env dict handed in again, an included file rewritten / deleted / restored with and "
+                "without ignore_missing_includes, includes turned into excludes or another top file, diamond includes, locales edited, "
+                "files added to / removed from the tree), per step ProjectFiles objects built in a shuffled order with repeats from the "
+                "SAME configuration objects, kept, and listed again at the end, set_locales(deep=True) on the results followed by "
+                "enumerations; every step judged by its own by-construction meaning + the same parse on a fresh TOMLParser + every "
+                "configuration still held must read as when it was returned; ONE EnumerateApp object with asConfig() repeated after "
+                "all-locales / filter.py / the tree changed, new application objects after l10n.ini edits. "
                 "non-trivial = enumeration non-empty; distinct = distinct (locale mode, canonical result) among those")
     rng = ctx.rng("c13")
     specs = exhaustive_specs(ctx.tier)
@@ -473,12 +620,61 @@ def run(ctx):
     specs += [gen_project(rng) for _ in range(nrand)]
     out.count("random.projects", nrand)
     res = pool.pmap("impl.projfiles", "run_case", [[s] for s in specs], timeout=20.0, batch=8)
+    tie(out, ctx, specs, res, [{"spec": s} for s in specs])
+    # ---- parser sessions: ONE TOMLParser object, a sequence of parses with files rewritten / variables changed in between
+    sessions = [gen_session(ctx.rng("c13.sessions", str(k))) for k in range(ctx.n(110, 2500))]
+    out.count("sessions", len(sessions))
+    sres = pool.pmap("impl.projfiles", "run_session", [[x] for x in sessions], timeout=60.0, batch=4)
+    sspecs, sstep, sinputs = [], [], []
+    slines, sowners = [], []
+    for i, r in enumerate(sres):
+        if "r" not in r:
+            out.violations.append({"what": "harness adapter raised %s: %s %s" % (r.get("exc"), r.get("msg"), r.get("where")),
+                                   "input": {"session": sessions[i]}, "finding": None})
+            continue
+        for k, st in enumerate(r["r"]["steps"]):
+            sspecs.append(sessions[i]["steps"][k])
+            sstep.append({"r": st})
+            sinputs.append({"session": sessions[i], "step": k})
+            out.count("sessions.steps")
+            for e in sessions[i]["steps"][k].get("edits", []):
+                out.count("sessions.edit." + e)
+        slines.append(r["r"]["sline"])
+        sowners.append(i)
+    bad_before = len(out.violations)
+    tie(out, ctx, sspecs, sstep, sinputs)
+    sbad = set(id(v["input"].get("session")) for v in out.violations[bad_before:])
+    smodel = C.run_driver_parallel(slines) if ctx.model_ok else [None] * len(slines)
+    for i, mo in zip(sowners, smodel):
+        if mo is None:
+            continue
+        rr = sres[i]["r"]
+        canon = rr["simpl"].replace(rr["root"], "@R@")
+        mo = mo.replace(rr["root"], "@R@")
+        out.evaluations += 1
+        out.nontrivial.add(hashlib.sha1(("S" + canon).encode()).hexdigest()[:16])
+        if "unsupported:" in mo:
+            out.count("sessions.skipped.unsupported")
+            continue
+        out.count("sessions.compared")
+        if mo != canon and id(sessions[i]) not in sbad:
+            a, b = canon.split(" ## "), mo.split(" ## ")
+            j = next((k for k in range(min(len(a), len(b))) if a[k] != b[k]), min(len(a), len(b)))
+            out.disagreements.append({"op": "c13.session", "session": sessions[i], "call": j,
+                                      "impl": TCF.canon_readable(a[j] if j < len(a) else "<end>")[:1200],
+                                      "model": TCF.canon_readable(b[j] if j < len(b) else "<end>")[:1200]})
+    tail(out, ctx, rng)
+    return out
+
+
+def tie(out, ctx, specs, res, inputs):
+    """correspondence + oracle results of generated projects (stand-alone ones and the steps of parser sessions)"""
     lines, owners = [], []
     mlines, mowners = [], []
     for i, r in enumerate(res):
         if "r" not in r:
             out.violations.append({"what": "harness adapter raised %s: %s %s" % (r.get("exc"), r.get("msg"), r.get("where")),
-                                   "input": {"spec": specs[i]}, "finding": None})
+                                   "input": inputs[i], "finding": None})
             continue
         for j, l in enumerate(r["r"]["lines"]):
             lines.append(l)
@@ -533,7 +729,7 @@ def run(ctx):
                 byf.setdefault(v["finding"], []).append(v)
             for fid, vs in byf.items():
                 out.violations.append({"what": vs[0]["what"], "more": [v["what"] for v in vs[1:4]], "count": len(vs),
-                                       "locale": vs[0].get("locale"), "finding": fid, "input": {"spec": specs[i]}})
+                                       "locale": vs[0].get("locale"), "finding": fid, "input": inputs[i]})
                 out.count("oracle.%s" % (fid or "unclassified"))
         elif i in per_case_bad:
             out.disagreements.append({"op": "pf.run", "spec": specs[i], "diff": per_case_bad[i][:2]})
@@ -589,6 +785,10 @@ def run(ctx):
             seen_bad.add(i)
             out.disagreements.append({"op": "c13.toml.run", "spec": specs[i], "locale": res[i]["r"]["locales"][j],
                                       "impl": readable(canon)[:1500], "model": readable(mo)[:1500] if mo.startswith("ok|") else mo[:300]})
+
+
+def tail(out, ctx, rng):
+    """the streams that do not come from generated projects"""
     # ---- directed and fault-injected configuration texts: exceptions, path resolution, inheritance, filters, same()
     raws = TCF.directed_cases() + fault_cases(ctx.rng("c13.faults"), ctx.n(250, 4000))
     out.count("toml.directed", len(TCF.directed_cases()))
@@ -660,6 +860,55 @@ def run(ctx):
             ibad.add(id(r))
             out.disagreements.append({"op": "c13.ini.run", "ini": c, "locale": r["locales"][j], "impl": readable(r["rimpl"][j])[:1200],
                                       "model": readable(mo)[:1200] if mo.startswith("ok|") else mo[:300]})
+    # ---- application sessions: one EnumerateApp object, asConfig() again after all-locales / filter.py / the tree changed;
+    #      new application objects in the same process after the l10n.ini files were rewritten
+    isess = [INI.gen_ini_session(ctx.rng("c13.ini.sessions", str(k))) for k in range(ctx.n(60, 1200))]
+    out.count("ini.sessions", len(isess))
+    isres = pool.pmap("impl.inicfg", "run_ini_session", [[x] for x in isess], timeout=60.0, batch=4)
+    sl, so = [], []
+    rl, ro = [], []
+    for i, r in enumerate(isres):
+        if "r" not in r:
+            out.violations.append({"what": "harness adapter raised %s: %s %s" % (r.get("exc"), r.get("msg"), r.get("where")),
+                                   "input": {"ini_session": isess[i]}, "finding": None})
+            continue
+        vs = [v for st in r["r"]["steps"] for v in st["violations"]]
+        out.count("ini.sessions.steps", len(r["r"]["steps"]))
+        out.count("ini.sessions.reused", sum(1 for x in isess[i]["reuse"] if x))
+        if vs:
+            out.violations.append({"what": vs[0], "more": vs[1:4], "count": len(vs), "finding": None, "input": {"ini_session": isess[i]}})
+            out.count("oracle.unclassified")
+            continue
+        for j, l in enumerate(r["r"]["slines"]):
+            sl.append(l)
+            so.append((i, j))
+        for k, st in enumerate(r["r"]["steps"]):
+            for j, l in enumerate(st["rlines"]):
+                rl.append(l)
+                ro.append((i, k, j))
+    sm = C.run_driver_parallel(sl) if ctx.model_ok else [None] * len(sl)
+    ibad2 = set()
+    for (i, j), mo in zip(so, sm):
+        rr = isres[i]["r"]
+        out.evaluations += 1
+        out.count("ini.sessions.compared")
+        out.nontrivial.add(hashlib.sha1(("J" + rr["simpl"][j]).encode()).hexdigest()[:16])
+        if mo is not None and mo.replace(rr["root"], "@R@") != rr["simpl"][j] and i not in ibad2:
+            ibad2.add(i)
+            a, b = rr["simpl"][j].split(" ## "), mo.replace(rr["root"], "@R@").split(" ## ")
+            k = next((x for x in range(min(len(a), len(b))) if a[x] != b[x]), min(len(a), len(b)))
+            out.disagreements.append({"op": "c13.ini.session", "ini_session": isess[i], "call": k,
+                                      "impl": TCF.canon_readable(a[k] if k < len(a) else "<end>")[:1200],
+                                      "model": TCF.canon_readable(b[k] if k < len(b) else "<end>")[:1200]})
+    rm = C.run_driver_parallel(rl) if ctx.model_ok else [None] * len(rl)
+    for (i, k, j), mo in zip(ro, rm):
+        st = isres[i]["r"]["steps"][k]
+        out.evaluations += 1
+        out.count("ini.sessions.run.compared")
+        if mo is not None and mo != st["rimpl"][j] and i not in ibad2:
+            ibad2.add(i)
+            out.disagreements.append({"op": "c13.ini.run", "ini_session": isess[i], "step": k, "locale": st["locales"][j],
+                                      "impl": readable(st["rimpl"][j])[:1200], "model": readable(mo)[:1200] if mo.startswith("ok|") else mo[:300]})
     # replays keep the first 20 violations: lead with one case of every root cause
     lead, rest, seen = [], [], set()
     for v in out.violations:
@@ -710,6 +959,26 @@ def replay(payload):
             r = pool.pmap("impl.inicfg", "run_ini", [[ini]], timeout=30.0)[0]
             vs = [{"what": w} for w in r.get("r", {}).get("violations", ["adapter failed: %r" % r])]
             res.append({"violations": vs[:6], "inis": ini["inis"], "files": ini["files"]})
+            continue
+        isess = v.get("input", {}).get("ini_session")
+        if isess:
+            r = pool.pmap("impl.inicfg", "run_ini_session", [[isess]], timeout=120.0)[0]
+            steps = r.get("r", {}).get("steps")
+            vs = [{"what": w} for st in steps for w in st["violations"]] if steps is not None else [{"what": "adapter failed: %r" % r}]
+            res.append({"violations": vs[:6], "reuse": isess["reuse"],
+                        "steps": [{"edit": c.get("edit"), "inis": c["inis"], "filters": c.get("filters"), "locales_files": c.get("locales_files"),
+                                   "files": c["files"], "order": c.get("order")} for c in isess["steps"]]})
+            continue
+        sess = v.get("input", {}).get("session")
+        if sess:
+            r = pool.pmap("impl.projfiles", "run_session", [[sess]], timeout=120.0)[0]
+            steps = r.get("r", {}).get("steps")
+            vs = [x for st in steps for x in st["violations"]] if steps is not None else [{"what": "adapter failed: %r" % r}]
+            res.append({"violations": vs[:6], "share_env": sess.get("share_env"),
+                        "steps": [{"edits": st.get("edits"), "projects": st["projects"], "parser_env": st["parser_env"], "ignore": st.get("ignore"),
+                                   "order": st.get("order"), "deep_after": st.get("deep_after"), "files": st["files"],
+                                   "configs": {c: (None if st["configs"][c].get("missing") == "absent" else PFI.toml_of(st, c)) for c in st["configs"]}}
+                                  for st in sess["steps"]]})
             continue
         raw = v.get("input", {}).get("raw")
         if raw:
